@@ -5,7 +5,8 @@
 //	scan  : a runtime-built struct (reflect.StructOf) carrying the tag under key prop | value | wire is scanned
 //	        by the real tag-scan processor (PostProcessDefinitionRegistry): covers the `prop` shorthand rewrite
 //	        and the Required default.
-//	e2e   : a runtime-built struct carrying a generated tag goes through a real app.Run.
+//	e2e   : a runtime-built struct carrying a generated tag (key wire | value | prop) goes through a real app.Run;
+//	        prop: the shorthand's key is absent from / present in the start's configuration (config).
 //
 // again : every parse must be independent of earlier parses of the same tag text and of what callers did with the
 //
@@ -21,6 +22,12 @@
 //	components carry the same tag and in which an application-defined post-processor scribbles over the
 //	arguments of every property it is shown.
 //
+// ops   : THE EXPORTED ARGUMENT API of a parsed Property (parse / scan).  After the parse was observed the driver calls
+//
+//	Property.SetArg / AddArg (via 0) or Args().Set / Add (via 1) with the names and values of the case, in
+//	order, and observes the table again ("after": ForEach, IsRequired, Find / Has probes under the spellings
+//	the case lists, and the library's own rendering Args().String()).
+//
 // Byte strings travel as hex (JSON cannot carry arbitrary bytes). Panics are outcomes.
 package main
 
@@ -32,6 +39,7 @@ import (
 
 	"github.com/go-kid/ioc/app"
 	"github.com/go-kid/ioc/component_definition"
+	"github.com/go-kid/ioc/configure/loader"
 	"github.com/go-kid/ioc/container"
 	"github.com/go-kid/ioc/container/processors"
 	"github.com/go-kid/ioc/container/support"
@@ -44,6 +52,13 @@ type Probe struct {
 	Wants []string `json:"wants"` // hex
 }
 
+type Op struct {
+	K    string   `json:"k"`    // set | add
+	Via  int      `json:"via"`  // 0: Property.SetArg / AddArg   1: Property.Args().Set / Add
+	Name string   `json:"name"` // hex
+	Vals []string `json:"vals"` // hex
+}
+
 type Case struct {
 	ID       int     `json:"id"`
 	Kind     string  `json:"kind"` // parse | scan | e2e
@@ -52,6 +67,9 @@ type Case struct {
 	Probes   []Probe `json:"probes"`
 	Provider bool    `json:"provider"` // e2e wire: a component of the field's type is registered
 	Again    int     `json:"again"`    // 0 | 1 | 2: parse, scribble over the result, parse the same text again
+	Ops      []Op    `json:"ops"`      // argument API calls on the parsed Property, in order
+	OProbes  []Probe `json:"oprobes"`  // lookups after the calls
+	Config   string  `json:"config"`   // e2e: YAML document of the start's only configuration loader ("" = no loader)
 }
 
 type Arg struct {
@@ -84,6 +102,9 @@ type Out struct {
 	FieldStr string `json:"fieldstr"` // hex of a string field's value
 	// again (parse / scan): the observation of the parse BEFORE the driver scribbled over its result
 	First *Out `json:"first,omitempty"`
+	// ops: the table after the argument API calls (Args, Required, Probes for the case's oprobes, Str)
+	After *Out   `json:"after,omitempty"`
+	Str   string `json:"str"` // hex of Args().String()
 }
 
 func unhex(s string) string {
@@ -143,6 +164,38 @@ func observe(p *component_definition.Property, c Case, out *Out) {
 		}
 		out.Probes = append(out.Probes, po)
 	}
+}
+
+// applyOps drives the exported argument API and observes the table afterwards
+func applyOps(p *component_definition.Property, c Case, out *Out) {
+	if len(c.Ops) == 0 {
+		return
+	}
+	for _, op := range c.Ops {
+		name := component_definition.ArgType(unhex(op.Name))
+		vals := make([]string, 0, len(op.Vals))
+		for _, v := range op.Vals {
+			vals = append(vals, unhex(v))
+		}
+		switch {
+		case op.K == "set" && op.Via == 0:
+			p.SetArg(name, vals...)
+		case op.K == "set":
+			p.Args().Set(name, vals...)
+		case op.K == "add" && op.Via == 0:
+			p.AddArg(name, vals...)
+		case op.K == "add":
+			p.Args().Add(name, vals...)
+		default:
+			panic("bad op " + op.K)
+		}
+	}
+	after := Out{ID: c.ID, NProps: 1}
+	c2 := c
+	c2.Probes = c.OProbes
+	observe(p, c2, &after)
+	after.Str = hexs(p.Args().String())
+	out.After = &after
 }
 
 // scribble overwrites everything a caller can reach from a parsed property
@@ -259,6 +312,7 @@ func runCase(c Case) (out Out) {
 			p := directParse(tagVal, false)
 			out.NProps = 1
 			observe(p, c, &out)
+			applyOps(p, c, &out)
 		case "scan":
 			if c.Again > 0 {
 				props1 := scanParse(c.Key, tagVal, c.Again == 2)
@@ -278,6 +332,7 @@ func runCase(c Case) (out Out) {
 			out.NProps = len(props)
 			if len(props) == 1 {
 				observe(props[0], c, &out)
+				applyOps(props[0], c, &out)
 			}
 		case "e2e":
 			ft := reflect.TypeOf("")
@@ -290,6 +345,10 @@ func runCase(c Case) (out Out) {
 					ft = reflect.TypeOf((*Missing)(nil))
 				}
 			}
+			cfgOpt := app.SetConfigLoader()
+			if c.Config != "" {
+				cfgOpt = app.SetConfigLoader(loader.NewRawLoader([]byte(c.Config)))
+			}
 			if c.Again > 0 {
 				scribble(directParse(tagVal, c.Again == 2))
 			}
@@ -301,13 +360,13 @@ func runCase(c Case) (out Out) {
 					pre = append(pre, &Dep{X: 1})
 				}
 				_ = hx.Guard(func() {
-					_ = app.NewApp().Run(app.LogLevel(syslog.LvFatal), app.SetConfigLoader(), app.SetComponents(pre...))
+					_ = app.NewApp().Run(app.LogLevel(syslog.LvFatal), cfgOpt, app.SetComponents(pre...))
 				})
 			}
 			holder := reflect.New(structWith(c.Key, tagVal, ft))
 			comps = append(comps, holder.Interface())
 			a := app.NewApp()
-			err := a.Run(app.LogLevel(syslog.LvFatal), app.SetConfigLoader(), app.SetComponents(comps...))
+			err := a.Run(app.LogLevel(syslog.LvFatal), cfgOpt, app.SetComponents(comps...))
 			out.Failed = err != nil
 			f := holder.Elem().Field(0)
 			if f.Kind() == reflect.Pointer {
